@@ -124,6 +124,66 @@ pub const NOPT: usize = 5;
 /// command environment of the state engines: 0 = no commands; 1 / 2 = a command far newer than
 /// every state sits on side 1 / side 2 (it must not influence the states or their timestamps)
 pub static CMD_ENV: std::sync::atomic::AtomicU8 = std::sync::atomic::AtomicU8::new(0);
+/// Cross-kind environment (both engines): data of the *other* kind - commands while states are
+/// judged, states while commands are judged - are present at some terminals. A device handles the
+/// two kinds in one update() and a terminal hands both out in one combined read, so code that
+/// confuses their presence or their timestamps only shows when both are there, with different
+/// times. Code 0 = none; otherwise (code - 1) = where + 3 * (time class + 4 * every_round):
+/// where: 0 = terminal 0, 1 = the last terminal, 2 = all terminals; time class: 0 = 1e9+7 ns (far
+/// newer than everything), 1 = older than everything of the round, 2 = the round's shared time,
+/// 3 = newer than everything of the round; written once before round 0 or again before every round.
+thread_local! {
+    pub static XENV: std::cell::Cell<u32> = std::cell::Cell::new(0);
+}
+pub const XENV_CODES: u32 = 24;
+fn xenv() -> Option<(usize, usize, bool)> {
+    let c = XENV.with(|x| x.get());
+    if c == 0 {
+        return None;
+    }
+    let c = (c - 1) as usize;
+    Some((c % 3, (c / 3) % 4, c / 12 == 1))
+}
+fn xenv_show() -> String {
+    match xenv() {
+        None => String::new(),
+        Some((w, t, every)) => format!(
+            " [other-kind data present: at {}, stamped {}, written {}]",
+            ["terminal 0", "the last terminal", "all terminals"][w],
+            ["1e9+7 ns", "round base - 40", "the round's shared time", "round base + 9"][t],
+            if every { "before every round" } else { "once before round 0" }
+        ),
+    }
+}
+fn xenv_apply<'a>(dev: &dyn DevIf<'a>, xs: &'a [Term<'a>], n: usize, mask: u32, k: usize, mode: Mode) {
+    if let Some((w, tc, every)) = xenv() {
+        if k > 0 && !every {
+            return;
+        }
+        let base = TIME_BASE.load(std::sync::atomic::Ordering::Relaxed) + 10 * k as i64;
+        let t = Time(match tc {
+            0 => 1_000_000_007,
+            1 => split_time(base - 40),
+            2 => split_time(base),
+            _ => split_time(base + 9),
+        });
+        for i in 0..n {
+            let sel = match w {
+                0 => i == 0,
+                1 => i == n - 1,
+                _ => true,
+            };
+            if !sel {
+                continue;
+            }
+            let target: &Term = if mask >> i & 1 == 1 { &xs[i] } else { dev.term(i) };
+            match mode {
+                Mode::State => target.borrow_mut().set(Datum::new(t, CA)).unwrap(),
+                Mode::Command => target.borrow_mut().set(Datum::new(t, SB)).unwrap(),
+            }
+        }
+    }
+}
 pub static TIME_BASE: std::sync::atomic::AtomicI64 = std::sync::atomic::AtomicI64::new(-25);
 /// "split" pass: the (small) logical times are mapped order-preservingly onto the two ends of the
 /// i64 range — everything up to round 0's shared time sits just above i64::MIN, everything newer
@@ -211,6 +271,7 @@ pub fn run_rounds(kind: Kind, mask: u32, rounds: &[Vec<usize>], mode: Mode) -> V
     }
     let mut out = Vec::with_capacity(rounds.len());
     for (k, opts) in rounds.iter().enumerate() {
+        xenv_apply(&*dev, &xs, n, mask, k, mode);
         for i in 0..n {
             let o = opts[i];
             if o == 0 {
@@ -456,9 +517,10 @@ fn project(kind: Kind, r: &[Obs]) -> Vec<Want> {
 
 pub fn describe(kind: Kind, mask: u32, rounds: &[Vec<usize>], mode: Mode) -> String {
     format!(
-        "{:?} connected-mask {:#b} rounds [{}]",
+        "{:?} connected-mask {:#b}{} rounds [{}]",
         kind,
         mask,
+        xenv_show(),
         rounds
             .iter()
             .enumerate()
@@ -660,6 +722,55 @@ fn explore_n(e: &mut Eng, kind: Kind, depth: usize, mode: Mode, time_only: bool,
             let a = judge_rounds(kind, mask, &rounds, mode, time_only, e);
             e.sample(|| describe(kind, mask, &rounds, mode));
             a
+        });
+    }
+}
+
+/// The cross-kind environment passes (see `XENV`): one parallel loop over (environment, device,
+/// connection subset) jobs, each job running every round sequence of its depth.
+fn explore_envs(e1: &mut Eng, e2: &mut Eng, kinds2: &[Kind], deep: bool, mode: Mode, time_only: bool, budget: Budget) {
+    let mut jobs1: Vec<(u32, Kind, u32, usize)> = Vec::new();
+    let mut jobs2: Vec<(u32, Kind, u32, usize)> = Vec::new();
+    for env in 1..=XENV_CODES {
+        for &k in kinds2 {
+            for m in all_masks(2) {
+                jobs1.push((env, k, m, 2));
+            }
+        }
+        for n in 1..=4usize {
+            for m in all_masks(n) {
+                jobs2.push((env, Kind::Axle(n), m, if n <= 2 || (n == 3 && deep) { 2 } else { 1 }));
+            }
+        }
+        for d in 0..4u8 {
+            for m in all_masks(3) {
+                jobs2.push((env, Kind::Diff(d), m, 1));
+            }
+        }
+    }
+    for (e, jobs) in [(e1, &jobs1), (e2, &jobs2)] {
+        par(e, jobs.len() as u64, 1, budget, |j, e| {
+            let (env, kind, mask, depth) = jobs[j as usize];
+            let n = kind.n();
+            let per_round = ipow(NOPT as u64, n);
+            XENV.with(|x| x.set(env));
+            let mut seq = vec![0usize; depth];
+            for idx in 0..ipow(per_round, depth) {
+                decode(idx, per_round, &mut seq);
+                let rounds: Vec<Vec<usize>> = seq
+                    .iter()
+                    .map(|&code| {
+                        let mut o = vec![0usize; n];
+                        decode(code as u64, NOPT as u64, &mut o);
+                        o
+                    })
+                    .collect();
+                e.states += new_nodes(idx, per_round, depth);
+                e.executions += 1;
+                e.max_depth = e.max_depth.max(depth as u64);
+                e.transitions += judge_rounds(kind, mask, &rounds, mode, time_only, e);
+            }
+            XENV.with(|x| x.set(0));
         });
     }
 }
@@ -1056,6 +1167,9 @@ fn state_engines(ctx: &Ctx, time_only: bool, tag: &str) -> Vec<Eng> {
         explore(&mut e2, Kind::Diff(3), 1, Mode::State, time_only, budget);
     }
     CMD_ENV.store(0, std::sync::atomic::Ordering::SeqCst);
+    // states in the presence of commands (24 cross-kind environments)
+    explore_envs(&mut e1, &mut e2, &kinds, deep, Mode::State, time_only, budget);
+    e1.notes.push("cross-kind environments: 24 more passes (2-terminal devices and Axle<1,2> depth 2, Axle<3,4> and differentials depth 1; thorough Axle<3> depth 2) with commands present at {terminal 0, the last terminal, all terminals} stamped {1e9+7 ns, older than the round, the round's shared time, newer than the round}, written {once before round 0, before every round}: the states written by update() and their timestamps must not depend on them".into());
     e1.notes.push("two more passes (depth 2) put a command stamped 1e9+7 ns on side 1 resp. side 2 before the state rounds: states and their timestamps must not depend on it".into());
     // second time base: large timestamps a few ns apart
     TIME_BASE.store(1_500_000_000, std::sync::atomic::Ordering::SeqCst);
@@ -1139,6 +1253,13 @@ fn command_engines(ctx: &Ctx, time_only: bool, tag: &str) -> Vec<Eng> {
         explore_twins(&mut e1, Kind::Axle(3), Kind::Axle(3), 1, Mode::Command, budget);
         e1.notes.push("twins: two devices alive at once, every 2-round command sequence of one against 6 partner sequences of the other, in both orders, run in lockstep must behave as each does alone".into());
     }
+    // commands in the presence of states (24 cross-kind environments)
+    {
+        let mut scratch = e1.fork();
+        explore_envs(&mut e1, &mut scratch, &kinds, deep, Mode::Command, time_only, budget);
+        e1.merge(scratch);
+    }
+    e1.notes.push("cross-kind environments: 24 more passes (2-terminal devices and Axle<1,2> depth 2, Axle<3,4> and differentials depth 1; thorough Axle<3> depth 2) with states present at {terminal 0, the last terminal, all terminals} stamped {1e9+7 ns, older than the round, the round's shared time, newer than the round}, written {once before round 0, before every round}: the relayed command, its kind and its timestamp must not depend on them".into());
     TIME_BASE.store(1_500_000_000, std::sync::atomic::Ordering::SeqCst);
     for &k in &kinds {
         explore(&mut e1, k, 2, Mode::Command, time_only, budget);
